@@ -87,17 +87,32 @@ public:
 
     virtual SyntaxToken firstToken() const override
     {
-        if (this->value)
-            return this->value->firstToken();
+        // The first valid token of any element (leading elements may be
+        // null or empty after error recovery).
+        for (auto it = this; it; it = it->next) {
+            SyntaxNodeT node = static_cast<SyntaxNodeT>(it->value);
+            if (node) {
+                auto tk = node->firstToken();
+                if (tk != SyntaxToken::invalid())
+                    return tk;
+            }
+        }
         return SyntaxToken::invalid();
     }
 
     virtual SyntaxToken lastToken() const override
     {
-        SyntaxNodeT node = this->lastValue();
-        if (node)
-            return node->lastToken();
-        return SyntaxToken::invalid();
+        // The last valid token of any element.
+        auto lastTk = SyntaxToken::invalid();
+        for (auto it = this; it; it = it->next) {
+            SyntaxNodeT node = static_cast<SyntaxNodeT>(it->value);
+            if (node) {
+                auto tk = node->lastToken();
+                if (tk != SyntaxToken::invalid())
+                    lastTk = tk;
+            }
+        }
+        return lastTk;
     }
 
     virtual SyntaxVisitor::Action acceptVisitor(SyntaxVisitor* visitor) override
